@@ -11,6 +11,7 @@ import (
 	"time"
 
 	"nhooyr.io/websocket"
+	"nhooyr.io/websocket/wsjson"
 	"verif/harness/fw"
 	"verif/harness/wire"
 	"verif/harness/xport"
@@ -145,6 +146,16 @@ func c08Gen(tier string, seed int64) []fw.Case {
 			}
 		}
 	}
+	// wsjson.Read on padded documents around the limit
+	for _, role := range bothRoles {
+		for _, p := range []wire.Params{{}, allParams[1], allParams[4%len(allParams)]} {
+			for _, lim := range []int64{100, 4096, 32768} {
+				for _, rel := range []int{-1, 0, 1, 2, int(lim)} {
+					add(c08Desc{Kind: "wsjson", Role: role, Params: p, Limit: lim, Sent: rel, Seed: rng.U64()}, fmt.Sprintf("wsjson/%s/%s/limit=%d%+d", role, paramsKey(p), lim, rel))
+				}
+			}
+		}
+	}
 	// declared lengths
 	for _, role := range bothRoles {
 		for _, decl := range []uint64{1 << 20, 1 << 27, 1 << 31, 1 << 40, 1<<62 + 5, 1<<63 - 1} {
@@ -194,7 +205,61 @@ func c08Run(r *fw.R, d c08Desc) {
 		c08Bomb(r, d)
 	case "declared":
 		c08Declared(r, d)
+	case "wsjson":
+		c08WSJSON(r, d)
 	}
+}
+
+// c08WSJSON: a JSON document whose value ends after a few bytes, padded with white space to a size around the
+// limit, read with wsjson.Read: within the limit it is read, beyond it the read fails and 1009 is sent - wherever
+// in the message the value itself ends.
+func c08WSJSON(r *fw.R, d c08Desc) {
+	r.SetSample(d)
+	c, _, peerEnd, err := libConn(d.Role, d.Params, 0, xport.Plan{}, xport.Plan{NoTap: true})
+	if err != nil {
+		r.Violate("C08/attach-failed", err.Error(), "")
+		return
+	}
+	defer c.CloseNow()
+	defer peerEnd.Close()
+	peer := newRawPeer(peerEnd, d.Role, d.Params, d.Seed)
+	peer.Start()
+	c.SetReadLimit(d.Limit)
+	size := int(d.Limit) + d.Sent // Sent holds the size relative to the limit here
+	doc := append([]byte(`{"a":1}`), bytes.Repeat([]byte(" "), size-7)...)
+	f := wire.Data(wire.OpText, true, doc)
+	if d.Params.Deflate {
+		def := &wire.Deflater{Takeover: d.Params.SenderTakeover(d.Role == RoleServer)}
+		f = wire.Data(wire.OpText, true, def.Message(doc, 6, wire.EndSync))
+		f.Rsv1 = true
+	}
+	peer.Send(f)
+	ctx, cancel := context.WithTimeout(context.Background(), 20*time.Second)
+	defer cancel()
+	var v map[string]int
+	rerr := wsjson.Read(ctx, c, &v)
+	what := fmt.Sprintf("%s %s: a %d byte JSON message (a 7 byte value, then white space) with the limit at %d read with wsjson.Read", d.Role, paramsKey(d.Params), size, d.Limit)
+	r.Key("wsjson/%s/%s/limit=%s/size=limit%+d", d.Role, paramsKey(d.Params), limClass(d.Limit), d.Sent)
+	if d.Sent <= 0 {
+		if rerr != nil || v["a"] != 1 {
+			r.Violate("C08/message-within-limit-rejected/wsjson", fmt.Sprintf("%s: %v (decoded %v)", what, rerr, v), "")
+		}
+		r.Count("messages_within_limit_delivered", 1)
+		return
+	}
+	if rerr == nil {
+		r.Violate("C08/message-over-limit-delivered/wsjson", fmt.Sprintf("%s: returned nil (decoded %v)", what, v), "")
+		return
+	}
+	r.Count("messages_over_limit_rejected", 1)
+	ok := peer.Wait(10*time.Second, func() bool { return peer.Conf.CloseSeen })
+	peer.Locked(func() {
+		if !ok || peer.Conf.CloseCode != 1009 {
+			r.Violate("C08/over-limit-close-status/wsjson", fmt.Sprintf("%s: failed with %v; close frame seen=%v code=%d, want 1009", what, rerr, peer.Conf.CloseSeen, peer.Conf.CloseCode), "")
+		} else {
+			r.Count("close_1009_seen", 1)
+		}
+	})
 }
 
 // fragments splits payload into n frames (the first carries op and rsv1).
